@@ -6,10 +6,12 @@
    [set_nice/set_ioprio/set_mask/set_rlim] change one field of an entry. *)
 From PV Require Import C18.Spec C18.Legacy C18.Proofs C18.ProofsReq C18.ProofsElig C18.ProofsThm.
 
-(* the packing of proc.c loses nothing: for every class the C shift is defined for and
-   every 13-bit data value the word fits an int and unpacks to the same pair *)
+(* the packing of proc.c ((int)((unsigned)class << 13 | (unsigned)data)) loses nothing: for every
+   class below 2^18 and every 13-bit data value the word is class*8192+data, fits an int and
+   unpacks to the same pair *)
 Theorem C18_ioprio_pack_roundtrip : forall c d, 0 <= c < 2 ^ 18 -> 0 <= d < 2 ^ 13 ->
-  exists raw, ioprio_pack c d = Some raw /\ -2 ^ 31 <= raw < 2 ^ 31 /\ ioprio_unpack raw = (c, d).
+  let raw := ioprio_pack c d in
+  raw = c * 8192 + d /\ -2 ^ 31 <= raw < 2 ^ 31 /\ ioprio_unpack raw = (c, d).
 Proof. exact ioprio_pack_roundtrip. Qed.
 Print Assumptions C18_ioprio_pack_roundtrip.
 
@@ -84,13 +86,15 @@ Theorem C18_rlimit_set_then_get : forall k pid p res s h,
 Proof. exact rlimit_set_then_get. Qed.
 Print Assumptions C18_rlimit_set_then_get.
 
-(* the invalid requests raise ValueError and leave the whole kernel state as it was;
+(* the invalid requests raise ValueError and leave the whole kernel state as it was
+   (since a87b45e also every I/O class outside 0-3);
    CPU lists: every non-empty list without an eligible CPU, whatever the eligible set and the
    current mask are (ids of any size, -1 included) *)
 Theorem C18_invalid_rejected : forall k pid p, kget pid k = Some p -> wf_procb k p = true -> pid <> 0 ->
   (forall c v, v < 0 \/ 7 < v -> run_req pid (Ionice (Some c) (Some v)) k = (Exc ValueError, k))
   /\ (forall c v, c = 0 \/ c = 3 -> v <> 0 -> run_req pid (Ionice (Some c) (Some v)) k = (Exc ValueError, k))
   /\ (forall v, run_req pid (Ionice None (Some v)) k = (Exc ValueError, k))
+  /\ (forall c v, c < 0 \/ 3 < c -> run_req pid (Ionice (Some c) v) k = (Exc ValueError, k))
   /\ (forall cpus, cpus <> [] -> (forall c, In c cpus -> ~ In c (p_elig p)) ->
         run_req pid (Affinity (Some cpus)) k = (Exc ValueError, k))
   /\ (forall res l, length l <> 2%nat -> run_req pid (Rlimit res (Some l)) k = (Exc ValueError, k)).
